@@ -11,8 +11,13 @@
   subtracts its weight iff it was linked, never twice, and never for an unknown node (no uint64 underflow: K2);
   add links and counts only alive nodes; eviction callbacks never receive a zero-weight node from the eviction loops'
   skip rule; an oversized new node is handed to the eviction callback and is not linked.
+  Over ALL event orders (Proofs.PolicyLink.Reach; Proofs.PolicyBound): after evictNodes the sum of the weights of the tracked
+  entries (= weightedSize, Props.C05) is within the maximum, or only zero-weight entries are left; evictNodes never evicts a
+  zero-weight entry.  The bound theorem assumes that the model's loop bound (4n+16 iterations; the code's loop is unbounded)
+  was not hit — the driver evaluates that flag on every evictNodes of every run and rejects the run if it is set.
 -/
 import OtterVerif.Impl.Policy
+import OtterVerif.Proofs.PolicyBound
 
 namespace OtterVerif.Props.C04
 open OtterVerif OtterVerif.Impl.Policy
@@ -105,6 +110,52 @@ theorem c05_add_not_alive_noop (p : Policy) (id : Nat) (h : (p.node id).st ≠ .
   have h2 : ((p.node id).st != NState.alive) = true := by simpa using h
   simp only [h1, Bool.false_eq_true, ↓reduceIte]
   split <;> simp [Policy.sketchIncr, Policy.ensure, h2, Policy.node] <;> (try split) <;> simp_all [Policy.node]
+
+/-! ### The bound, for every reachable policy state (all event orders) -/
+
+/-- After evictNodes the policy is within its maximum — `weightedSize`, which is the sum of the weights of the tracked entries
+    (c04_weightedSize_is_sum), does not exceed `maximum` — or every entry still tracked has weight zero (such entries are
+    never removed for size reasons and do not count toward the bound).  Holds in every state reachable by any order of
+    add/update/delete events, reads, SetMaximum (including lowering the maximum) and earlier evictions. -/
+theorem c04_bound_after_evictNodes {S : List Nat} {p : Policy} (h : Reach S p) (hr : evictNodesRanOut p = false) :
+    (evictNodes p).weightedSize.toNat ≤ (evictNodes p).maximum.toNat ∨
+    (∀ id, Linked (evictNodes p) id → ((evictNodes p).node id).weight = 0) := by
+  rcases bound_evictNodes (reach_inv h) hr with hb | hz
+  · left
+    simp [BitVec.ult] at hb
+    exact hb
+  · right
+    intro id hl
+    exact hz id ((linked_iff_all _ id).mp hl)
+
+/-- the counter the bound is about is the sum of the weights of the tracked entries, before and after the eviction -/
+theorem c04_weightedSize_is_sum {S : List Nat} {p : Policy} (h : Reach S p) :
+    (evictNodes p).weightedSize = wsum (evictNodes p) (all (evictNodes p)) :=
+  reach_winv (Reach.evict h)
+
+/-- entries of weight zero are never removed for size reasons: every node evictNodes hands to the eviction callback has a
+    non-zero weight -/
+theorem c04_zero_weight_never_evicted (p : Policy) (x : Nat) (hx : x ∈ (evictNodes p).evicted) (hnew : x ∉ p.evicted) :
+    (p.node x).weight ≠ 0 := by
+  rcases evictNodes_nonzero p x hx with h | h
+  · exact absurd h hnew
+  · exact h
+
+/-- an entry heavier than the maximum is not retained: `add` hands it straight to the eviction callback and leaves it unlinked
+    and dead -/
+theorem c04_oversized_not_retained {S : List Nat} {p : Policy} (h : Reach S p) (id : Nat) (hs : id ∉ S)
+    (halive : (p.node id).st = .alive) (hbig : BitVec.ult (addPrefix p id).maximum (w64 (p.node id).weight) = true) :
+    ¬ Linked (add p id) id ∧ ((add p id).node id).st = .dead := by
+  have hd : ((add p id).node id).st = .dead := by
+    rw [add_eq]
+    simp only
+    have h1 : ((p.node id).st != NState.alive) = false := by simp [halive]
+    rw [h1]
+    simp only [Bool.false_eq_true, ↓reduceIte, hbig]
+    exact evictNode_dead _ id
+  refine ⟨fun hl => ?_, hd⟩
+  have := (reach_inv (Reach.add id h hs)).a id ((linked_iff_all _ id).mp hl)
+  exact this.2 hd
 
 /-! ### Non-vacuity -/
 def p0 : Policy := { nodes := [{ id := 1, key := 5, weight := 2 }], window := [1], weightedSize := 2, windowWeightedSize := 2, maximum := 10, windowMaximum := 1 }
